@@ -1,0 +1,172 @@
+//! Read-only observation hooks for external verification tooling.
+//!
+//! Only compiled with the `verif` cargo feature. Nothing here changes router behaviour.
+
+use crate::{
+    errors::TemplateError,
+    node::Node,
+    parser::{ParsedTemplate, Part},
+    state::{
+        DynamicConstrainedState, DynamicState, EndWildcardConstrainedState, EndWildcardState,
+        NodeState, RootState, StaticState, WildcardConstrainedState, WildcardState,
+    },
+};
+
+/// One part of a parsed template, in left-to-right order.
+#[derive(Clone, Debug, Eq, PartialEq)]
+pub enum PartDump {
+    Static(Vec<u8>),
+    Dynamic(String, Option<String>),
+    Wildcard(String, Option<String>),
+}
+
+/// One expansion of a template: its raw text and its parts in left-to-right order.
+pub type ExpansionDump = (Vec<u8>, Vec<PartDump>);
+
+/// Runs the template parser and returns every expansion, in the order `insert` uses them.
+///
+/// # Errors
+///
+/// Returns the parser's own error for a rejected template.
+pub fn parse(input: &[u8]) -> Result<Vec<ExpansionDump>, TemplateError> {
+    let parsed = ParsedTemplate::new(input)?;
+    Ok(parsed
+        .templates
+        .iter()
+        .map(|template| {
+            let parts = template
+                .parts
+                .iter()
+                .rev()
+                .map(|part| match part {
+                    Part::Static { prefix } => PartDump::Static(prefix.clone()),
+                    Part::DynamicConstrained { name, constraint } => {
+                        PartDump::Dynamic(name.clone(), Some(constraint.clone()))
+                    }
+                    Part::Dynamic { name } => PartDump::Dynamic(name.clone(), None),
+                    Part::WildcardConstrained { name, constraint } => {
+                        PartDump::Wildcard(name.clone(), Some(constraint.clone()))
+                    }
+                    Part::Wildcard { name } => PartDump::Wildcard(name.clone(), None),
+                })
+                .collect();
+
+            (template.raw.clone(), parts)
+        })
+        .collect())
+}
+
+/// Route information stored at a node.
+#[derive(Clone, Debug, Eq, PartialEq)]
+pub struct DataDump {
+    pub template: String,
+    pub expanded: Option<String>,
+    pub depth: usize,
+    pub length: usize,
+}
+
+/// Structural copy of one tree node. `children[k]` are the children of kind `k`, in stored order:
+/// 0 static, 1 dynamic constrained, 2 dynamic, 3 wildcard constrained, 4 wildcard,
+/// 5 end wildcard constrained, 6 end wildcard.
+#[derive(Clone, Debug, Eq, PartialEq)]
+pub struct NodeDump {
+    /// 0..=6 as for `children`; 7 for the root.
+    pub kind: u8,
+    /// Static prefix bytes, or the parameter name.
+    pub key: Vec<u8>,
+    pub constraint: Option<String>,
+    pub data: Option<DataDump>,
+    pub dynamic_children_shortcut: bool,
+    pub wildcard_children_shortcut: bool,
+    pub needs_optimization: bool,
+    pub children: [Vec<NodeDump>; 7],
+}
+
+pub trait DumpState {
+    fn dump_key(&self) -> (u8, Vec<u8>, Option<String>);
+}
+
+impl DumpState for RootState {
+    fn dump_key(&self) -> (u8, Vec<u8>, Option<String>) {
+        (7, vec![], None)
+    }
+}
+
+impl DumpState for StaticState {
+    fn dump_key(&self) -> (u8, Vec<u8>, Option<String>) {
+        (0, self.prefix.clone(), None)
+    }
+}
+
+impl DumpState for DynamicConstrainedState {
+    fn dump_key(&self) -> (u8, Vec<u8>, Option<String>) {
+        (1, self.name.clone().into_bytes(), Some(self.constraint.clone()))
+    }
+}
+
+impl DumpState for DynamicState {
+    fn dump_key(&self) -> (u8, Vec<u8>, Option<String>) {
+        (2, self.name.clone().into_bytes(), None)
+    }
+}
+
+impl DumpState for WildcardConstrainedState {
+    fn dump_key(&self) -> (u8, Vec<u8>, Option<String>) {
+        (3, self.name.clone().into_bytes(), Some(self.constraint.clone()))
+    }
+}
+
+impl DumpState for WildcardState {
+    fn dump_key(&self) -> (u8, Vec<u8>, Option<String>) {
+        (4, self.name.clone().into_bytes(), None)
+    }
+}
+
+impl DumpState for EndWildcardConstrainedState {
+    fn dump_key(&self) -> (u8, Vec<u8>, Option<String>) {
+        (5, self.name.clone().into_bytes(), Some(self.constraint.clone()))
+    }
+}
+
+impl DumpState for EndWildcardState {
+    fn dump_key(&self) -> (u8, Vec<u8>, Option<String>) {
+        (6, self.name.clone().into_bytes(), None)
+    }
+}
+
+pub fn dump_node<T, S: NodeState + DumpState>(node: &Node<T, S>) -> NodeDump {
+    let (kind, key, constraint) = node.state.dump_key();
+
+    NodeDump {
+        kind,
+        key,
+        constraint,
+        data: node.data.as_ref().map(|data| DataDump {
+            template: data.template().to_owned(),
+            expanded: data.expanded().map(ToOwned::to_owned),
+            depth: data.depth(),
+            length: data.length(),
+        }),
+        dynamic_children_shortcut: node.dynamic_children_shortcut,
+        wildcard_children_shortcut: node.wildcard_children_shortcut,
+        needs_optimization: node.needs_optimization,
+        children: [
+            node.static_children.iter().map(dump_node).collect(),
+            node.dynamic_constrained_children
+                .iter()
+                .map(dump_node)
+                .collect(),
+            node.dynamic_children.iter().map(dump_node).collect(),
+            node.wildcard_constrained_children
+                .iter()
+                .map(dump_node)
+                .collect(),
+            node.wildcard_children.iter().map(dump_node).collect(),
+            node.end_wildcard_constrained_children
+                .iter()
+                .map(dump_node)
+                .collect(),
+            node.end_wildcard_children.iter().map(dump_node).collect(),
+        ],
+    }
+}
